@@ -236,6 +236,11 @@ func (c *SpecCtx) eval(n *SNode) Val {
 		if v, ok := c.lookupPkgObj(n.Name); ok {
 			return v
 		}
+		if n.Name == "ghost" {
+			if nt := e.P.ghostType(c.pkg); nt != nil {
+				return Val{T: types.NewPointer(nt), K: kScalar, S: e.ghostObj(c.pkg)}
+			}
+		}
 		panic(specErr("unknown name %q", n.Name))
 	case "old":
 		saved := c.inOld
